@@ -60,14 +60,41 @@ fn total(tier: &str, seed: u64, outdir: &str) {
         sc.spawn(move || {
             while !done.load(std::sync::atomic::Ordering::Relaxed) {
                 std::thread::sleep(std::time::Duration::from_millis(500));
+                // resident memory of this process (pages): a blow-up is reported before the
+                // kernel kills the run
+                let rss_gb = std::fs::read_to_string("/proc/self/statm")
+                    .ok()
+                    .and_then(|t| t.split_whitespace().nth(1).and_then(|x| x.parse::<u64>().ok()))
+                    .map(|pages| pages * 4096 / (1 << 30))
+                    .unwrap_or(0);
+                // the case that has been running longest
+                let mut oldest: Option<(u64, u64)> = None;
                 for c in current.iter() {
                     let g = c.lock().unwrap();
-                    if g.0 != u64::MAX && g.1.elapsed().as_secs() > 60 {
+                    if g.0 != u64::MAX {
+                        let ms = g.1.elapsed().as_millis() as u64;
+                        if oldest.map_or(true, |o| ms > o.1) {
+                            oldest = Some((g.0, ms));
+                        }
+                    }
+                }
+                if let Some((idx, ms)) = oldest {
+                    let hang = ms > 20_000;
+                    let blowup = rss_gb >= 12 && ms > 2_000;
+                    if hang || blowup {
                         let fxw = Fixtures::load(FIXTURE_ROOT, false);
-                        let (src, cfg) = mal_case(g.0, &fxw);
-                        let j = fail_json("C05", "mal", g.0, &src, cfg, "hang", "no result after 60 s", "");
+                        let (src, cfg) = mal_case(idx, &fxw);
+                        let why = if hang { format!("no result after {} s", ms / 1000) } else { format!("{} GB resident after {} s on this input", rss_gb, ms / 1000) };
+                        let j = fail_json("C05", "mal", idx, &src, cfg, "hang", &why, "");
                         let _ = std::fs::write(format!("{}/oracle.jsonl", outdir2), format!("{}\n", j));
-                        println!("HANG mal {}", g.0);
+                                                let mut stw = Stats::default();
+                        stw.evaluated = 1;
+                        stw.failures = 1;
+                        stw.distinct.insert(idx);
+                        stw.nontrivial.insert(idx);
+                        stw.samples.push(format!("mal:{} (run stopped by the watchdog)", idx));
+                        let _ = std::fs::write(format!("{}/stats.json", outdir2), stw.to_json());
+                        println!("HANG mal {}", idx);
                         std::process::exit(3);
                     }
                 }
@@ -134,6 +161,11 @@ fn total(tier: &str, seed: u64, outdir: &str) {
                     // model side: the tree (when accepted) must be printed without rejection
                     if !erroneous && src.len() < 20000 && cfg.width <= 1_000_000 {
                         if let Ok(ob) = crate::observe(&source, cfg) {
+                            if ob.out.len() + ob.doc.len() > (4 << 20) {
+                                // deep nesting at a huge indent unit: megabytes of indentation
+                                *st.by_gen.entry("model-skipped-large-output".into()).or_default() += 1;
+                                continue;
+                            }
                             let mut t = String::new();
                             ser::ser_tree(source.root(), &mut t);
                             writeln!(w, "CASE mal {}", c.idx).unwrap();
@@ -638,6 +670,42 @@ fn det(tier: &str, seed: u64, outdir: &str) {
             }
         }
         w.flush().unwrap();
+    }
+    // (4) long history: a long-running process formats far more documents than any schedule
+    // above; the same small documents, alternately, many times over (then once more from threads)
+    {
+        let mut small: Vec<usize> = (0..docs.len()).filter(|&i| base[i].is_ok()).collect();
+        small.sort_by_key(|&i| docs[i].0.len());
+        small.truncate(3);
+        let n = if tier == "thorough" { 300_000 } else { 70_000 };
+        let mut bad = None;
+        if !small.is_empty() {
+            for k in 0..n {
+                let i = small[k % small.len()];
+                if obs::format(&docs[i].0, docs[i].1) != base[i] {
+                    bad = Some((i, k));
+                    break;
+                }
+            }
+            st.evaluated += n as u64;
+            if bad.is_none() {
+                let res: Vec<Option<usize>> = std::thread::scope(|sc| {
+                    let (docs, base, small) = (&docs, &base, &small);
+                    let hs: Vec<_> = (0..4)
+                        .map(|_| sc.spawn(move || (0..2000).map(|k| small[k % small.len()]).find(|&i| obs::format(&docs[i].0, docs[i].1) != base[i])))
+                        .collect();
+                    hs.into_iter().map(|h| h.join().unwrap_or(Some(small[0]))).collect()
+                });
+                if let Some(Some(i)) = res.into_iter().find(|x| x.is_some()) {
+                    bad = Some((i, n));
+                }
+            }
+            if let Some((i, k)) = bad {
+                st.failures += 1;
+                fails.push(fail_json("C17", "det", i as u64, &docs[i].0, docs[i].1, "history", &format!("result differs from the first result after {} earlier calls in this process", k), ""));
+            }
+        }
+        *st.by_gen.entry("schedules".into()).or_default() += 1;
     }
     finish(outdir, vec![(st, fails)]);
 }
